@@ -506,7 +506,7 @@ func (m *ctlModel) eval(fr *mFrame, e Expr) (mValue, completion) {
 		return l, normalC
 	case *EIt:
 		if e.Wrap {
-			return &mIb{site: e.Site, n: e.N, flags: e.Flags}, normalC
+			return &mIb{site: e.Site, n: e.N, flags: e.Flags, drv: e.Drv}, normalC
 		}
 		return &mIt{site: e.Site, n: e.N, flags: e.Flags}, normalC
 	case *EArr:
